@@ -923,7 +923,7 @@ brk("B06", "resolve_fragment: swap the two replace calls",
     [(V, '''            part = part.replace(u"~1", u"/").replace(u"~0", u"~")''', '''            part = part.replace(u"~0", u"~").replace(u"~1", u"/")''')], {"C14": "R14.2|"})
 
 brk("B07", "resolve_fragment: except LookupError only",
-    [(V, "            except (TypeError, LookupError):", "            except LookupError:")], {"C14": "R14.4|"})
+    [(V, "            except (TypeError, LookupError, ValueError):", "            except (LookupError, ValueError):")], {"C14": "R14.4|"})
 
 brk("B07b", "resolve_fragment: lstrip('/') (pre-fix shape of the leading slash removal)",
     [(V, '''        fragment = unquote(fragment)
@@ -942,10 +942,10 @@ brk("B07c", "resolve_fragment: unquote after the split (per token)",
      (V, '''            part = part.replace(u"~1", u"/").replace(u"~0", u"~")''', '''            part = unquote(part).replace(u"~1", u"/").replace(u"~0", u"~")''')], {"C14": "R14.2|"})
 
 brk("B07d", "resolve_fragment: str admitted as an array",
-    [(V, '''                isinstance(document, Sequence) and
-                not isinstance(document, str) and
-                _ARRAY_INDEX.fullmatch(part)''', '''                isinstance(document, Sequence) and
-                _ARRAY_INDEX.fullmatch(part)''')], {"C14": "R14.3|"})
+    [(V, '''                    isinstance(document, Sequence) and
+                    not isinstance(document, str) and
+                    _ARRAY_INDEX.fullmatch(part)''', '''                    isinstance(document, Sequence) and
+                    _ARRAY_INDEX.fullmatch(part)''')], {"C14": "R14.3|"})
 
 brk("B07e", "resolve_fragment: index regex used with match (prefix match)",
     [(V, "                _ARRAY_INDEX.fullmatch(part)", "                _ARRAY_INDEX.match(part)")], {"C14": "R14.3|"})
@@ -960,10 +960,10 @@ brk("B07h", "resolve_fragment: ~0 never unescaped",
     [(V, '''            part = part.replace(u"~1", u"/").replace(u"~0", u"~")''', '''            part = part.replace(u"~1", u"/")''')], {"C14": "R14.2|"})
 
 brk("B07i", "resolve_fragment: failed lookup returns None instead of raising",
-    [(V, '''            except (TypeError, LookupError):
+    [(V, '''            except (TypeError, LookupError, ValueError):
                 raise exceptions.RefResolutionError(
                     "Unresolvable JSON pointer: %r" % fragment
-                )''', '''            except (TypeError, LookupError):
+                )''', '''            except (TypeError, LookupError, ValueError):
                 return None''')], {"C14": "R14.4|"})
 
 
@@ -1231,7 +1231,29 @@ brk("B91", "is_type: UndefinedTypeCheck no longer translated",
                 raise exceptions.UnknownType(type, instance, self.schema)''', '''            return self.TYPE_CHECKER.is_type(instance, type)''')], {"C03": "R3."})
 
 brk("B92", "resolve_fragment: TypeError not handled",
-    [(V, "            except (TypeError, LookupError):", "            except LookupError:")], {"C03": "R3.1|"})
+    [(V, "            except (TypeError, LookupError, ValueError):", "            except (LookupError, ValueError):")], {"C03": "R3.1|"})
+
+brk("B92b", "resolve_fragment: pre-fix shape of F-15 (int() outside the try, ValueError not handled)",
+    [(V, '''            try:
+                if (
+                    isinstance(document, Sequence) and
+                    not isinstance(document, str) and
+                    _ARRAY_INDEX.fullmatch(part)
+                ):
+                    # Array indexes should be turned into integers.  A
+                    # digit string beyond the interpreter's int/str
+                    # conversion limit raises ValueError: no such index.
+                    part = int(part)
+                document = document[part]
+            except (TypeError, LookupError, ValueError):''', '''            if (
+                isinstance(document, Sequence) and
+                not isinstance(document, str) and
+                _ARRAY_INDEX.fullmatch(part)
+            ):
+                part = int(part)
+            try:
+                document = document[part]
+            except (TypeError, LookupError):''')], {"C03": "R3.1|", "C14": "R14.4|"})
 
 brk("B93", "extras_msg indexes the first extra",
     [(U, '''    if len(extras) == 1:
